@@ -5,6 +5,10 @@
    server's readiness and the duration of its Stop are environment oracles; Stop(), context
    cancellation and closing the siphon may happen at any point (they are only looked at
    where the code looks at them: the main select, the restart delay, the readiness wait).
+   The cluster's own FSM moves through the transition table it is created with ([fsm_allowed]);
+   the `!IsRunning()` gate of processConfigUpdate and the failure branches of its transitions are
+   modelled (a refused map is dropped; a failed return to Running forces Error) -- that they are
+   never taken is a theorem (ClusterFsm.v), not a definition.
 
    The planner is Cluster.v, as written ([fx] = false) or repaired ([fx] = true).
    Ghost fields (not observable, not part of the dedup key): [s_hyg] is true as long as
@@ -14,14 +18,31 @@ From GS Require Export Cluster.
 From GS Require Import LTS.
 
 Inductive beh := BReady | BNever | BError.      (* readiness oracle, chosen at creation *)
-Inductive cstate := CRunning | CReloading | CStopping | CStopped | COther.
+Inductive cstate := CRunning | CReloading | CStopping | CStopped | CError | COther.
+
+(* The transition table the cluster's FSM is created with (finitestate.NewTypicalFSM =
+   go-fsm transitions.Typical), restricted to the states a started cluster can be in (New and
+   Booting are left before the model starts; COther stands for Unknown / anything else):
+     Running -> Reloading, Stopping, Error     Reloading -> Running, Error
+     Stopping -> Stopped, Error                Stopped -> Error (and New)
+     Error -> Error, Stopping, Stopped         Unknown -> Unknown *)
+Definition fsm_allowed (from to : cstate) : bool :=
+  match from, to with
+  | CRunning, CReloading | CRunning, CStopping | CRunning, CError => true
+  | CReloading, CRunning | CReloading, CError => true
+  | CStopping, CStopped | CStopping, CError => true
+  | CStopped, CError => true
+  | CError, CError | CError, CStopping | CError, CStopped => true
+  | COther, COther => true
+  | _, _ => false
+  end.
 
 Definition beh_eqb (a b : beh) : bool :=
   match a, b with BReady, BReady | BNever, BNever | BError, BError => true | _, _ => false end.
 Definition cstate_eqb (a b : cstate) : bool :=
   match a, b with
   | CRunning, CRunning | CReloading, CReloading | CStopping, CStopping
-  | CStopped, CStopped | COther, COther => true
+  | CStopped, CStopped | CError, CError | COther, COther => true
   | _, _ => false
   end.
 
@@ -123,9 +144,18 @@ Definition set_pc (s : state) (p : pc) : state :=
       (s_failed s).
 
 (* executeActions returned: commit, FSM back to Running (or Stopped in shutdown) *)
+(* Transition(to): the state moves only if the table allows it (a failed Transition is logged) *)
+Definition fsm_goto (c to : cstate) : cstate := if fsm_allowed c to then to else c.
+
+(* the FSM at the end of executeActions: shutdown does Transition(Stopped); processConfigUpdate does
+   TransitionIfCurrentState(Reloading, Running) and on failure setStateError() (which forces Error) *)
+Definition fsm_finish (shut : bool) (c : cstate) : cstate :=
+  if shut then fsm_goto c CStopped
+  else if cstate_eqb c CReloading && fsm_allowed CReloading CRunning then CRunning else CError.
+
 Definition finish_round (s : state) (pend : emap) : state :=
   mkS (commit pend) (if s_shut s then PFin else PIdle) (s_shut s)
-      (if s_shut s then CStopped else CRunning) (s_next s) (s_offer s) (s_stopreq s) (s_cancel s)
+      (fsm_finish (s_shut s) (s_fsm s)) (s_next s) (s_offer s) (s_stopreq s) (s_cancel s)
       (s_closed s) (s_delay s) (s_live s) (s_stopping s) (s_unrun s) (s_hyg s) (s_base s) (s_des s)
       (s_failed s).
 
@@ -173,6 +203,12 @@ Definition add_failed (k : id) (s : state) : state :=
       (s_closed s) (s_delay s) (s_live s) (s_stopping s) (s_unrun s)
       (s_hyg s) (s_base s) (s_des s) (k :: s_failed s).
 
+(* a received map that is not processed (cluster not Running / Reloading refused) *)
+Definition drop_offer (s : state) : state :=
+  mkS (s_entries s) (s_pc s) (s_shut s) (s_fsm s) (s_next s) None (s_stopreq s) (s_cancel s)
+      (s_closed s) (s_delay s) (s_live s) (s_stopping s) (s_unrun s) (s_hyg s) (s_base s) (s_des s)
+      (s_failed s).
+
 Definition step (fx : bool) (s : state) (l : label) : option state :=
   match l with
   | LOffer m =>
@@ -204,15 +240,19 @@ Definition step (fx : bool) (s : state) (l : label) : option state :=
   | LRecv ord =>
     match s_pc s, s_offer s with
     | PIdle, Some m =>
-      let cur := s_entries s in
-      let des := new_entries m in
-      if is_perm ord (keys cur) then
-        let pend := build_pending fx ord cur des in
-        Some (begin_round
-                (mkS cur PIdle false CReloading (s_next s) None (s_stopreq s) (s_cancel s)
-                     (s_closed s) (s_delay s) (s_live s) (s_stopping s) (s_unrun s)
-                     (s_hyg s && hygienicb (ids_of cur des)) cur des []) pend)
-      else None
+      (* processConfigUpdate: `if !r.IsRunning() { ignore }`, then Transition(Reloading), whose
+         failure returns an error; in both cases the map is dropped and the loop goes on *)
+      if cstate_eqb (s_fsm s) CRunning && fsm_allowed (s_fsm s) CReloading then
+        let cur := s_entries s in
+        let des := new_entries m in
+        if is_perm ord (keys cur) then
+          let pend := build_pending fx ord cur des in
+          Some (begin_round
+                  (mkS cur PIdle false CReloading (s_next s) None (s_stopreq s) (s_cancel s)
+                       (s_closed s) (s_delay s) (s_live s) (s_stopping s) (s_unrun s)
+                       (s_hyg s && hygienicb (ids_of cur des)) cur des []) pend)
+        else None
+      else Some (drop_offer s)
     | _, _ => None
     end
   | LShut =>
@@ -222,7 +262,7 @@ Definition step (fx : bool) (s : state) (l : label) : option state :=
         let cur := s_entries s in
         let pend := build_pending fx (keys cur) cur [] in
         Some (begin_round
-                (mkS cur PIdle true CStopping (s_next s) (s_offer s) (s_stopreq s) (s_cancel s)
+                (mkS cur PIdle true (fsm_goto (s_fsm s) CStopping) (s_next s) (s_offer s) (s_stopreq s) (s_cancel s)
                      (s_closed s) (s_delay s) (s_live s) (s_stopping s) (s_unrun s)
                      (s_hyg s) cur [] []) pend)
       else None
@@ -379,7 +419,7 @@ Definition k_emap (m : emap) : list N := N.of_nat (length m) :: flat_map k_entry
 Definition k_bool (b : bool) : N := if b then 1 else 0.
 Definition k_beh (b : beh) : N := match b with BReady => 0 | BNever => 1 | BError => 2 end.
 Definition k_cstate (c : cstate) : N :=
-  match c with CRunning => 0 | CReloading => 1 | CStopping => 2 | CStopped => 3 | COther => 4 end.
+  match c with CRunning => 0 | CReloading => 1 | CStopping => 2 | CStopped => 3 | COther => 4 | CError => 5 end.
 Definition k_pc (p : pc) : list N :=
   match p with
   | PIdle => [0]
